@@ -3,7 +3,7 @@ from pyvc.verify import Post, Case, Equiv, NativeFacts
 from contracts import common
 
 PROPERTY = 'C04'
-REF_MODULES = ['ref_core', 'ref_t', 'h_path', 'ref_extra']
+REF_MODULES = ['ref_core', 'ref_t', 'h_path', 'ref_extra', 'ref_registry', 'ref_match', 'ref_reduce', 'ref_auto', 'ref_err']
 
 
 def config(cfg):
@@ -63,6 +63,14 @@ def contracts():
              ensures=['type(result) is TypeMatchError', 'len(result.args) == 3', 'result.args[1] is self.args[1]', 'result.args[2] is self.args[2]'])]))
     from contracts import X_ctor
     cs += common.shared(X_ctor, ['core.GlomError._set_wrapped'])
+    # the Glommer entry point forwards default / skip_exc unchanged; messages of glom's own errors are rendered eagerly by some callers
+    from contracts import C13, C08, C03, C05
+    cs += common.shared(C13, ['core.Glommer.glom'])
+    cs += common.shared(C08, ['core.arg_val', 'core._ArgValuator.mode'])
+    cs += common.shared(C03, ['core._has_callable_glomit'])
+    cs += common.shared(C05, ['core.GlomError._finalize'])
+    cs += common.shared(X_ctor, ['core.UnregisteredTarget.get_message', 'core.CoalesceError.get_message', 'matching.CheckError.get_message',
+                                 'core.PathAssignError.get_message', 'mutation.PathDeleteError.get_message'])
     return cs
 
 
